@@ -23,14 +23,15 @@ pub(super) fn in_heap(t: &VmGreenThread, v: Value) -> bool {
 
 // Runs SpawnTask(1, 9) with `cap` as the only capture and returns the spawned thread.
 pub(super) fn spawn_with_capture(t: &mut VmGreenThread, cap: Value) -> Box<VmGreenThread> {
-    push_frame(t, ValueTag::Int);
-    let frame = t.value_stack.clone();
+    // a one-slot stack below the capture (no loops: the recursion bound of deep_copy is the harness unwind bound)
+    let below = sym_val(ValueTag::Int);
+    t.value_stack.push(below);
     t.value_stack.push(cap);
     unsafe { SENT_COUNT = 0; }
     t.pc.0 = 0;
     let cont = t.step();
     assert!(cont && t.error.is_none() && t.pc.0 == 1, "spawning continues the spawner");
-    assert!(same_stack(&t.value_stack, &frame), "captures are consumed from the spawner's stack");
+    assert!(t.value_stack.len() == 1 && t.value_stack[0].0 == below.0 && t.value_stack[0].1 == ValueTag::Int, "captures are consumed from the spawner's stack");
     assert!(unsafe { SENT_COUNT } == 1, "exactly one new thread handed to the scheduler");
     let nt = take_sent_thread();
     assert!(nt.pc.0 == 9 && nt.stack_base == 0 && nt.value_stack.len() == 1, "task starts at its code with the captures as its stack");
@@ -41,21 +42,27 @@ pub(super) fn spawn_prog() -> Vec<Instr> {
     vec![norm(Instr::SpawnTask(1, ProgramCounter(9))), Instr::Stop]
 }
 
-vm_harness! {
-    #[kani::unwind(9)]
-    fn c08_capture_scalar() {
-        let mut t = mk_thread(spawn_prog(), vec![], vec![]);
-        let k: u8 = kani::any();
-        let cap = match k % 3 { 0 => sym_val(ValueTag::Int), 1 => sym_val(ValueTag::Float), _ => sym_val(ValueTag::Bool) };
-        let nt = spawn_with_capture(&mut t, cap);
-        assert!(nt.value_stack[0].0 == cap.0 && nt.value_stack[0].1 == cap.1, "scalars are copied by value");
-        assert!(nt.heap_list.len() == 0);
-        kani::cover!(true, "req: reachable");
-        std::mem::forget(t); std::mem::forget(nt);
-    }
+macro_rules! c08_scalar {
+    ($name:ident, $tag:expr) => {
+        vm_harness! {
+            #[kani::unwind(3)]
+            fn $name() {
+                let mut t = mk_thread(spawn_prog(), vec![], vec![]);
+                let cap = sym_val($tag);
+                let nt = spawn_with_capture(&mut t, cap);
+                assert!(nt.value_stack[0].0 == cap.0 && nt.value_stack[0].1 == cap.1, "scalars are copied by value");
+                assert!(nt.heap_list.len() == 0);
+                kani::cover!(true, "req: reachable");
+                std::mem::forget(t); std::mem::forget(nt);
+            }
+        }
+    };
 }
+c08_scalar!(c08_capture_int, ValueTag::Int);
+c08_scalar!(c08_capture_float, ValueTag::Float);
+c08_scalar!(c08_capture_bool, ValueTag::Bool);
 vm_harness! {
-    #[kani::unwind(9)]
+    #[kani::unwind(4)]
     fn c08_capture_string() {
         let mut t = mk_thread(spawn_prog(), vec![], vec![]);
         let b = sym_ascii3();
@@ -73,7 +80,7 @@ vm_harness! {
     }
 }
 vm_harness! {
-    #[kani::unwind(9)]
+    #[kani::unwind(4)]
     fn c08_capture_array_of_ints() {
         let mut t = mk_thread(spawn_prog(), vec![], vec![]);
         let (cap, e) = fixed_array(&mut t, 2, 4);
@@ -91,7 +98,7 @@ vm_harness! {
     }
 }
 vm_harness! {
-    #[kani::unwind(9)]
+    #[kani::unwind(4)]
     fn c08_capture_empty_array() {
         let mut t = mk_thread(spawn_prog(), vec![], vec![]);
         let (cap, _e) = fixed_array(&mut t, 0, 0);
@@ -103,7 +110,7 @@ vm_harness! {
     }
 }
 vm_harness! {
-    #[kani::unwind(9)]
+    #[kani::unwind(4)]
     fn c08_capture_array_of_strings() {
         let mut t = mk_thread(spawn_prog(), vec![], vec![]);
         let b = sym_ascii3();
@@ -121,7 +128,7 @@ vm_harness! {
     }
 }
 vm_harness! {
-    #[kani::unwind(9)]
+    #[kani::unwind(4)]
     fn c08_capture_struct_with_array() {
         let mut t = mk_thread(spawn_prog(), vec![], vec![]);
         let a: u64 = kani::any();
@@ -139,7 +146,7 @@ vm_harness! {
     }
 }
 vm_harness! {
-    #[kani::unwind(9)]
+    #[kani::unwind(4)]
     fn c08_capture_variant_and_closure() {
         let mut t = mk_thread(spawn_prog(), vec![], vec![]);
         let tag: u16 = kani::any();
@@ -160,7 +167,7 @@ vm_harness! {
     }
 }
 vm_harness! {
-    #[kani::unwind(9)]
+    #[kani::unwind(4)]
     fn c08_capture_channel_is_shared() {
         let mut t = mk_thread(spawn_prog(), vec![], vec![]);
         let ch = ChannelObject::new(&mut t);
@@ -184,70 +191,81 @@ pub(super) fn chan_ref<'a>(v: Value) -> &'a ChannelObject {
     unsafe { &*(v.0 as *const ChannelObject) }
 }
 
-vm_harness! {
-    #[kani::unwind(9)]
-    fn c09_write_appends() {
-        let mut t = mk_thread(chan_prog(), vec![], vec![]);
-        let ch = Value::from(ChannelObject::new(&mut t));
-        let n: usize = kani::any();
-        kani::assume(n <= 2);
-        let q: [u64; 2] = kani::any();
-        if n > 0 { chan_ref(ch).write_value(Value(q[0], ValueTag::Int)); }
-        if n > 1 { chan_ref(ch).write_value(Value(q[1], ValueTag::Int)); }
-        push_frame(&mut t, ValueTag::Int);
-        let frame = t.value_stack.clone();
-        let v = sym_val(ValueTag::Int);
-        t.value_stack.push(ch);
-        t.value_stack.push(v);
-        t.pc.0 = 0;
-        let cont = t.step();
-        assert!(cont && t.error.is_none() && t.pc.0 == 1, "a write never blocks");
-        assert!(same_stack(&t.value_stack, &frame), "channel and value consumed");
-        let data = chan_ref(ch).data.lock().unwrap();
-        assert!(data.len() == n + 1, "exactly one element appended");
-        assert!(data[n].0 == v.0 && data[n].1 == v.1, "the written value is last");
-        assert!(n < 1 || data[0].0 == q[0], "earlier elements keep their order");
-        assert!(n < 2 || data[1].0 == q[1], "earlier elements keep their order");
-        kani::cover!(n == 2, "req: queue of two");
-        drop(data);
-        std::mem::forget(t);
-    }
+// queue length is concrete per harness: a symbolic VecDeque length does not finish under CBMC (measured: solver gave up at 12 GB)
+macro_rules! c09_write {
+    ($name:ident, $n:expr) => {
+        vm_harness! {
+            #[kani::unwind(4)]
+            fn $name() {
+                let mut t = mk_thread(chan_prog(), vec![], vec![]);
+                let ch = Value::from(ChannelObject::new(&mut t));
+                let n: usize = $n;
+                let q: [u64; 2] = kani::any();
+                if n > 0 { chan_ref(ch).write_value(Value(q[0], ValueTag::Int)); }
+                if n > 1 { chan_ref(ch).write_value(Value(q[1], ValueTag::Int)); }
+                let below = sym_val(ValueTag::Int);
+                t.value_stack.push(below);
+                let v = sym_val(ValueTag::Int);
+                t.value_stack.push(ch);
+                t.value_stack.push(v);
+                t.pc.0 = 0;
+                let cont = t.step();
+                assert!(cont && t.error.is_none() && t.pc.0 == 1, "a write never blocks");
+                assert!(t.value_stack.len() == 1 && t.value_stack[0].0 == below.0, "channel and value consumed");
+                let data = chan_ref(ch).data.lock().unwrap();
+                assert!(data.len() == n + 1, "exactly one element appended");
+                assert!(data[n].0 == v.0 && data[n].1 == v.1, "the written value is last");
+                assert!(n < 1 || data[0].0 == q[0], "earlier elements keep their order");
+                assert!(n < 2 || data[1].0 == q[1], "earlier elements keep their order");
+                kani::cover!(true, "req: reachable");
+                std::mem::forget(data);
+                std::mem::forget(t);
+            }
+        }
+    };
 }
-vm_harness! {
-    #[kani::unwind(9)]
-    fn c09_read_takes_front() {
-        let mut w = mk_thread(chan_prog(), vec![], vec![]);
-        let mut r = mk_thread(chan_prog(), vec![], vec![]);
-        let chw = Value::from(ChannelObject::new(&mut w));
-        let chr = chan_ref(chw).copy(&mut r);
-        let q: [u64; 2] = kani::any();
-        let n: usize = kani::any();
-        kani::assume(n >= 1 && n <= 2);
-        chan_ref(chw).write_value(Value(q[0], ValueTag::Int));
-        if n > 1 { chan_ref(chw).write_value(Value(q[1], ValueTag::Float)); }
-        push_frame(&mut r, ValueTag::Int);
-        let frame = r.value_stack.clone();
-        r.value_stack.push(chr);
-        r.pc.0 = 1;
-        let cont = r.step();
-        assert!(cont && r.error.is_none() && r.pc.0 == 2, "a read on a non-empty channel completes");
-        let mut model = frame.clone();
-        model.push(Value(q[0], ValueTag::Int));
-        assert!(same_stack(&r.value_stack, &model), "the FRONT element is received");
-        let data = chan_ref(chw).data.lock().unwrap();
-        assert!(data.len() == n - 1, "exactly that element was removed");
-        assert!(n < 2 || (data[0].0 == q[1] && data[0].1 == ValueTag::Float), "the rest keeps its order");
-        kani::cover!(n == 2, "req: queue of two");
-        drop(data);
-        std::mem::forget(w); std::mem::forget(r);
-    }
+c09_write!(c09_write_appends_0, 0);
+c09_write!(c09_write_appends_1, 1);
+c09_write!(c09_write_appends_2, 2);
+macro_rules! c09_read {
+    ($name:ident, $n:expr) => {
+        vm_harness! {
+            #[kani::unwind(4)]
+            fn $name() {
+                let mut w = mk_thread(chan_prog(), vec![], vec![]);
+                let mut r = mk_thread(chan_prog(), vec![], vec![]);
+                let chw = Value::from(ChannelObject::new(&mut w));
+                let chr = chan_ref(chw).copy(&mut r);
+                let q: [u64; 2] = kani::any();
+                let n: usize = $n;
+                chan_ref(chw).write_value(Value(q[0], ValueTag::Int));
+                if n > 1 { chan_ref(chw).write_value(Value(q[1], ValueTag::Float)); }
+                let below = sym_val(ValueTag::Int);
+                r.value_stack.push(below);
+                r.value_stack.push(chr);
+                r.pc.0 = 1;
+                let cont = r.step();
+                assert!(cont && r.error.is_none() && r.pc.0 == 2, "a read on a non-empty channel completes");
+                assert!(r.value_stack.len() == 2 && r.value_stack[0].0 == below.0, "the channel operand is replaced by the received value");
+                assert!(r.value_stack[1].0 == q[0] && r.value_stack[1].1 == ValueTag::Int, "the FRONT element is received");
+                let data = chan_ref(chw).data.lock().unwrap();
+                assert!(data.len() == n - 1, "exactly that element was removed");
+                assert!(n < 2 || (data[0].0 == q[1] && data[0].1 == ValueTag::Float), "the rest keeps its order");
+                kani::cover!(true, "req: reachable");
+                std::mem::forget(data);
+                std::mem::forget(w); std::mem::forget(r);
+            }
+        }
+    };
 }
+c09_read!(c09_read_takes_front_1, 1);
+c09_read!(c09_read_takes_front_2, 2);
 vm_harness! {
-    #[kani::unwind(9)]
+    #[kani::unwind(4)]
     fn c09_read_empty_blocks_only_reader() {
         let mut r = mk_thread(chan_prog(), vec![], vec![]);
         let ch = Value::from(ChannelObject::new(&mut r));
-        push_frame(&mut r, ValueTag::Int);
+        r.value_stack.push(sym_val(ValueTag::Int));
         r.value_stack.push(ch);
         let before = r.value_stack.clone();
         r.pc.0 = 1;
@@ -261,7 +279,7 @@ vm_harness! {
     }
 }
 vm_harness! {
-    #[kani::unwind(9)]
+    #[kani::unwind(4)]
     fn c09_read_copies_heap_value_into_reader() {
         let mut w = mk_thread(chan_prog(), vec![], vec![]);
         let mut r = mk_thread(chan_prog(), vec![], vec![]);
@@ -287,28 +305,27 @@ vm_harness! {
     }
 }
 vm_harness! {
-    #[kani::unwind(9)]
-    fn c09_value_survives_writer_drop() {
-        // history: writer allocates a string, writes it, finishes and is dropped; then the reader reads.
+    #[kani::unwind(4)]
+    fn c09_written_heap_value_outlives_writer() {
+        // A value travelling through a channel must not depend on the writer's lifetime: a finished task is dropped by the
+        // scheduler (Runtime::finish_thread_turn) and Drop for VmGreenThread frees every object in its heap_list (C07).
+        // Obligation on ONE real ChannelWrite step: what the queue holds afterwards is not an object of the writer's heap.
         let mut w = mk_thread(chan_prog(), vec![], vec![]);
-        let mut r = mk_thread(chan_prog(), vec![], vec![]);
         let chw = Value::from(ChannelObject::new(&mut w));
-        let chr = chan_ref(chw).copy(&mut r);
         let b = sym_ascii3();
         let s = mk_string(&mut w, b, 2);
         w.value_stack.push(chw);
         w.value_stack.push(s);
         w.pc.0 = 0;
-        assert!(w.step());
-        drop(w); // real Drop for VmGreenThread frees the writer's heap
-        r.value_stack.push(chr);
-        r.pc.0 = 1;
-        assert!(r.step() && r.pc.0 == 2);
-        let got = r.value_stack[0];
-        assert!(got.1 == ValueTag::String);
-        let bytes = string_ref(got).str.as_bytes();
-        assert!(bytes.len() == 2 && bytes[0] == b[0] && bytes[1] == b[1], "received value equals what was written, after the writer is gone");
+        assert!(w.step() && w.error.is_none());
+        let data = chan_ref(chw).data.lock().unwrap();
+        assert!(data.len() == 1 && data[0].1 == ValueTag::String);
+        let queued = data[0];
+        let bytes = string_ref(queued).str.as_bytes();
+        assert!(bytes.len() == 2 && bytes[0] == b[0] && bytes[1] == b[1], "the queue holds the value written");
+        assert!(!in_heap(&w, queued), "the queued value is not owned by the writer's heap (it must survive the writer)");
         kani::cover!(true, "req: reachable");
-        std::mem::forget(r);
+        std::mem::forget(data);
+        std::mem::forget(w);
     }
 }
